@@ -68,6 +68,41 @@ theorem syncPodIPs_spec (s : State) (h : Inv s) :
 theorem inv_syncPodIPs (s : State) (f : Nat) (h : Inv s) : Inv (step Facts.good s (.syncPodIPs f)).1 :=
   (syncPodIPs_spec _ (inv_withFaults s f 0 h)).1
 
+/-! ### graceful deletion begins -/
+
+/-- `markTerminating`: the pod stays what it was for the invariant (same key, uid, phase, binding annotation - a
+    terminating pod is still a live bound pod); UpdatePod queues nothing (`!finished(old) && finished(new)` is false:
+    finished looks at the phase only) and its `syncPodIP` can only add records for unallocated addresses -/
+theorem markTerminating_spec (s : State) (ns name : String) (fault : Nat) (h : Inv s) :
+    Inv (step Facts.good s (.markTerminating ns name fault)).1 ∧
+      (step Facts.good s (.markTerminating ns name fault)).1.plog = s.plog ∧
+      (step Facts.good s (.markTerminating ns name fault)).1.admin = s.admin := by
+  simp only [step]
+  split
+  · exact ⟨h, rfl, rfl⟩
+  · rename_i p hp
+    obtain ⟨_, _, _, wf⟩ := h.podsWF _ p hp
+    have h1 : Inv { s with pods := Tbl.set s.pods (ns, name) { p with terminating := true } } :=
+      inv_setPodSame s (ns, name) p { p with terminating := true } s.events h hp rfl rfl wf rfl rfl
+        (fun hf => hf) (fun e he => Or.inl he)
+    split
+    · exact ⟨h, rfl, rfl⟩
+    · split
+      · exact ⟨h1, rfl, rfl⟩
+      · split
+        · rename_i hc
+          exfalso
+          simp only [codeFinished_good, Bool.and_eq_true, Bool.not_eq_true'] at hc
+          have : ({ p with terminating := true } : Pod).finished = p.finished := rfl
+          rw [this, hc.1] at hc
+          cases hc.2
+        · split
+          · have sp := syncIPs_spec { p with terminating := true } p.ips
+              (withFaults { s with pods := Tbl.set s.pods (ns, name) { p with terminating := true } } fault 0)
+              (inv_withFaults _ fault 0 h1) trivial
+            exact ⟨sp.1, sp.2.2, sp.2.1.admin⟩
+          · exact ⟨h1, rfl, rfl⟩
+
 /-! ### reload / restart -/
 
 theorem inv_of_reconfigured {s s' : State} {ps : List Pool} (h : Inv s) (rc : Reconfigured s s' ps)
